@@ -27,9 +27,11 @@ func (s *scope) makevar(varname string) string {
 
 // newname generates a new JS name for the given variable name, without adding
 // a mapping to this scope.
+// (the counter is set off by an underscore: "a1" + "1" and "a" + "11" would be
+// the same name.)
 func (s *scope) newname(varname string) string {
 	s.n++
-	return varname + strconv.Itoa(s.n)
+	return varname + "_" + strconv.Itoa(s.n)
 }
 
 // bind maps the variable name to the given JS name in the current scope.
@@ -49,7 +51,7 @@ func (s *scope) lookup(varname string) string {
 
 func (s *scope) pushForRange(loopVar string) (lVar, lLimit string) {
 	s.n++
-	n := strconv.Itoa(s.n)
+	n := "_" + strconv.Itoa(s.n)
 	s.stack = append(s.stack, map[string]string{
 		loopVar:             loopVar + n,
 		loopVar + "__limit": loopVar + "Limit" + n,
@@ -61,7 +63,7 @@ func (s *scope) pushForRange(loopVar string) (lVar, lLimit string) {
 
 func (s *scope) pushForEach(loopVar string) (lVar, lList, lLen, lIndex string) {
 	s.n++
-	n := strconv.Itoa(s.n)
+	n := "_" + strconv.Itoa(s.n)
 	s.stack = append(s.stack, map[string]string{
 		loopVar:             loopVar + n,
 		loopVar + "__limit": loopVar + "Limit" + n,
